@@ -82,7 +82,7 @@ func runScenarios(c *Ctx, prop string) error {
 			return err
 		}
 		_ = before
-		c.Case("witness-"+s.id, h.term(), J{"ops": h.desc})
+		c.Case("witness-"+s.id, h.term(), histInput(h))
 		c.Extra["witness_"+s.id+"_reproduced"] = reproduced
 	}
 	return nil
